@@ -10,13 +10,13 @@ FP = {'ev_periodic_start.function_pointer_call.1': ['resched'], 'echs_evstrm_pop
 def ob(name, nop, lowbits, **kw):
     o = dict(name=name, src='h_queue.c', defs=['NOP=%d' % nop, 'LOWBITS=%d' % lowbits], units=['src/task.c'], incl=['src/echsd.c'],
              replay_units='all', replay_extra_units=['src/logger.c'], unwind=max(nop, 4) + 2,
-             unwindset={'put_task_slot.*': (1 << lowbits) + 18, 'get_task_slot.*': 18, 'make_task_pool.*': 5, 'memset.*': 4, 'strlen.*': 10, 'strdup.*': 10, 'memcpy.*': 10},
-             solver='cadical', timeout=1200, mem_gb=16, object_bits=12, checks=['--bounds-check', '--pointer-check'], restrict_fp=FP, replace_calls={'add_chkpnt': 'env_add_chkpnt', 'make_chld': 'env_make_chld', 'free_chld': 'env_free_chld'},
+             unwindset={'put_task_slot.*': (1 << lowbits) + 18, 'get_task_slot.*': 18, 'make_task_pool.*': 5, 'memset.*': 4, 'strlen.*': 10, 'strdup.*': 10, 'strcpy.*': 10, 'memcpy.*': 10},
+             solver='cadical', timeout=1200, mem_gb=16, object_bits=12, checks=['--bounds-check', '--pointer-check'], restrict_fp=FP, replace_calls={'add_chkpnt': 'env_add_chkpnt', 'make_chld': 'env_make_chld', 'free_chld': 'env_free_chld', 'make_task_pool': 'env_make_task_pool', 'calloc': 'env_calloc', 'free': 'env_free'}, replace_calls2={'free_real': 'free'},
              allow_nobody=['snprintf', 'lseek', 'echs_log', 'echs_errlog', 'obint_name', 'dt_strf', 'free_strlst'],
              enc=['_inject_task1', '_eject_task1', 'get_task', 'make_task', 'free_task', 'put_task_slot', 'get_task_slot', 'echs_task_owned_by_p', 'free_echs_task', 'echs_task_rset_ownr'],
              sym='the three oids, the operation history (kind, which oid, which user), root vs per-user daemon',
              bounds='%d operations, 3 oids, 2 users, table <= %d slots' % (nop, 1 << (lowbits + 1)), outside='longer histories; GET /queue and /sched rendering; socket credentials',
-             stubs=['make_chld/free_chld replaced by a separate-objects allocator (the malloc-threaded pool costs > 40 GB of formula)', 'add_chkpnt() cut (goto-instrument --replace-calls): checkpoint bookkeeping is C06', 'libev/spawn/passwd stand-ins (harness/common/echsd_env.h)', 'array-backed streams', 'hook pool sizes'])
+             stubs=['calloc/free of the task table redirected to static tables (16 slots + one grown table; an allocation of symbolic size is beyond the solver)', 'make_task_pool replaced by a chain of separate objects (one malloc-ed array = every task access at a symbolic offset)', 'make_chld/free_chld replaced by a separate-objects allocator (the malloc-threaded pool costs > 40 GB of formula)', 'add_chkpnt() cut (goto-instrument --replace-calls): checkpoint bookkeeping is C06', 'libev/spawn/passwd stand-ins (harness/common/echsd_env.h)', 'array-backed streams', 'hook pool sizes'])
     o.update(kw)
     return o
 OBLIGATIONS = [
@@ -24,6 +24,6 @@ OBLIGATIONS = [
     ob('queue_op3', 3, 4, defs=['NOP=3', 'LOWFIX'], bounds='3 operations, 3 oids with fixed distinct low 4 bits (slots 1,4,7) and symbolic upper 60 bits, 2 users'),
     ob('queue_op4', 4, 4, defs=['NOP=4', 'LOWFIX'], bounds='4 operations, same oids', tiers=('thorough',), timeout=3400, mem_gb=30),
     ob('queue_op3_anylow', 3, 4, bounds='3 operations, 3 oids differing within their low 4 bits (no table growth)', tiers=('thorough',), timeout=3400, mem_gb=40),
-    ob('table_growth', 1, 4, defs=['NOP=1', 'RESIZE=7'], bounds='two oids sharing their low 4..7 bits: table grows to 32..256 slots', timeout=3400, mem_gb=40, tiers=('thorough',),
+    ob('table_growth', 1, 4, defs=['NOP=1', 'RESIZE=7', 'TABMAX=256'], bounds='two oids sharing their low 4..7 bits: table grows to 32..256 slots', timeout=3400, mem_gb=40, tiers=('thorough',),
        unwindset={'put_task_slot.*': 20, 'get_task_slot.*': 18, 'make_task_pool.*': 5, 'memset.*': 4}),
 ]
